@@ -224,7 +224,9 @@ contract("monkeytype.stubs:FunctionKind.from_callable", props=["C12"], theories=
          # the kind is read off the descriptor found (statically) under the function's qualified name: that is what decides the decorator of the stub
          ensures={"post:module": "implies(not contains_dot(func.__qualname__), result is FunctionKind.MODULE)",
                   "post:classmethod": "implies(contains_dot(func.__qualname__) and is_classmethod(%s), result is FunctionKind.CLASS)" % _DESC,
-                  "post:staticmethod": "implies(contains_dot(func.__qualname__) and not is_classmethod(%s) and is_staticmethod(%s), result is FunctionKind.STATIC)" % (_DESC, _DESC),
+                  "post:staticmethod": "implies(contains_dot(func.__qualname__) and not is_classmethod(%s) and is_staticmethod(%s) and last_name_of(func.__qualname__) != '__new__', result is FunctionKind.STATIC)" % (_DESC, _DESC),
+                  # C12: type.__new__ wraps a plain `def __new__(cls, ...)` in a staticmethod - no decorator in the source, `cls` is the receiver (never annotated)
+                  "post:implicit-static-new": "implies(contains_dot(func.__qualname__) and not is_classmethod(%s) and is_staticmethod(%s) and last_name_of(func.__qualname__) == '__new__', result is FunctionKind.INSTANCE)" % (_DESC, _DESC),
                   "post:property": "implies(contains_dot(func.__qualname__) and not is_classmethod(%s) and not is_staticmethod(%s) and okind(%s) is OK_property, result is FunctionKind.PROPERTY)" % (_DESC, _DESC, _DESC),
                   "post:instance": "implies(contains_dot(func.__qualname__) and not is_classmethod(%s) and not is_staticmethod(%s) and okind(%s) is not OK_property"
                                    " and not (DJANGO_CP is not None and okind(%s) is OK_cached_property), result is FunctionKind.INSTANCE)" % (_DESC, _DESC, _DESC, _DESC)},
